@@ -6,6 +6,7 @@ import (
 	"hash/crc32"
 	"io"
 	"math"
+	"sort"
 
 	"github.com/foxglove/mcap/go/mcap"
 
@@ -225,6 +226,39 @@ func checkC01Case(c *Case, rep *core.Report) {
 		if mode == drive.NextIntoNil {
 			if d := firstDiff(e.metadata, md); d != "" {
 				rep.Violate("iterator-metadata-callback", fmt.Sprintf("%s: metadata callback of the sequential read: %s", c.Describe(), d), c.Witness())
+				return
+			}
+		}
+	}
+	// the same sequential read with messages skipped in between (every other message's topic, from the
+	// median log time on): what is returned is still exactly what was written, and stays unaltered
+	if len(e.triples) >= 2 {
+		topicOf := map[uint16]string{}
+		for k := range c.W.Ops {
+			if ch := c.W.Ops[k].Channel; ch != nil {
+				topicOf[ch.ID] = ch.Topic
+			}
+		}
+		seen := map[string]bool{}
+		var topics []string
+		for k := 0; k < len(e.triples); k += 2 {
+			if t := topicOf[e.triples[k].ChanID]; !seen[t] {
+				seen[t] = true
+				topics = append(topics, t)
+			}
+		}
+		times := make([]uint64, len(e.triples))
+		for k := range e.triples {
+			times[k] = e.triples[k].LogTime
+		}
+		sort.Slice(times, func(a, b int) bool { return times[a] < times[b] })
+		start := times[len(times)/2]
+		want := selectTriples(e.triples, topicOf, topics, start, 0, true)
+		for _, mode := range []drive.NextMode{drive.NextIntoNil, drive.NextNil} {
+			ir := drive.ReadMessages(bytes.NewReader(rd), drive.IterOpts{Opts: []mcap.ReadOpt{mcap.UsingIndex(false), mcap.WithTopics(topics), mcap.AfterNanos(start)}, Mode: mode})
+			rep.Count("filtered_iterator_triples_compared", int64(len(ir.Triples)))
+			if kind, msg := checkTriples(c, want, ir, fmt.Sprintf("Messages(UsingIndex(false), WithTopics(%d topics), AfterNanos(%d)) mode %d", len(topics), start, mode)); kind != "" {
+				rep.Violate(kind, msg, c.Witness())
 				return
 			}
 		}
